@@ -48,7 +48,7 @@ Section Batch.
                                   b_slot st ((i + k) mod cap) = nth (Z.to_nat k) ws 0)
     | BPopLdRT one n => 0 <= n
     | BPopLdWH one n rt => 0 <= n /\ s <= rt <= rt_
-    | BPopCasRT one n rt rn => s <= rt <= rt_ /\ 0 < rn /\ (rt = rt_ -> rt_ + rn <= wh)
+    | BPopCasRT one n rt rn => 0 <= n /\ s <= rt <= rt_ /\ 0 < rn /\ (rt = rt_ -> rt_ + rn <= wh)
     | BPopRd one rt rn i => rt = i /\ hd_ <= i /\ i + rn <= rt_ /\ 0 < rn
     | BPopCasH one rt rn i vs => rt = i /\ hd_ <= i /\ i + rn <= rt_ /\ 0 < rn /\
         vs = map (b_gval st) (zseq i (Z.to_nat rn))
@@ -237,7 +237,7 @@ Section Batch.
                       (b_gval st) (b_gwho st) (b_thr st))
                  p (BPopRd one (b_rtail st) rn (b_grt st))).
   Proof.
-    intros I Epc. pose proof (bv_pc st I p _ Epc) as K. cbn [bpc_ok] in K. destruct K as (K1 & K2 & K3).
+    intros I Epc. pose proof (bv_pc st I p _ Epc) as K. cbn [bpc_ok] in K. destruct K as (K0 & K1 & K2 & K3).
     specialize (K3 eq_refl).
     set (st' := b_goto _ p _).
     pose proof I as I0. destruct I. destruct bv_ord0 as (O1 & O2 & O3 & O4 & O5).
@@ -328,12 +328,11 @@ Section Batch.
       + rewrite Hthr in E by exact N. pose proof (bv_pc0 q pcq E) as Kq.
         destruct pcq; cbn [bpc_ok] in *; change (b_whead st') with (i + wn); change (b_tail st') with (b_tail st);
           change (b_head st') with (b_head st); change (b_rtail st') with (b_rtail st);
-          change (b_gval st') with (b_gval st); change (b_slot st') with (b_slot st); try exact Kq.
-        * destruct Kq as (A & B & C0 & D). repeat split; try assumption.
-          destruct (bv_wdisj0 q p _ _ i0 wn0 i wn N E Epc eq_refl eq_refl); lia.
-        * destruct Kq as (A & B & C0 & D). repeat split; try assumption.
-          destruct (bv_wdisj0 q p _ _ i0 wn0 i wn N E Epc eq_refl eq_refl); lia.
-        * destruct Kq as (A & B & C0). repeat split; try assumption. intros Hr. specialize (C0 Hr). lia.
+          change (b_gval st') with (b_gval st); change (b_slot st') with (b_slot st); try exact Kq;
+          repeat match goal with H : _ /\ _ |- _ => destruct H end;
+          repeat match goal with |- _ /\ _ => split end; try assumption; try lia;
+          try (match goal with H : ?a = ?b -> _ |- ?a = ?b -> _ => let Hr := fresh in intros Hr; specialize (H Hr); lia end);
+          try (destruct (bv_wdisj0 q p _ _ _ _ i wn N E Epc eq_refl eq_refl); lia).
     - intros q. destruct (Nat.eq_dec q p) as [->|N]; [rewrite Hthp; apply bfinish_ops; apply bv_ops0 | rewrite Hthr by exact N; apply bv_ops0].
     - intros q1 q2 pc1 pc2 a k b l N E1 E2 H1 H2.
       assert (A1 : q1 <> p) by (intros Eq; rewrite Eq, Hthp in E1; apply bfinish_pc in E1; destruct E1 as (o & ? & ? & ->); destruct (entry_noint o); congruence).
@@ -376,12 +375,11 @@ Section Batch.
       + rewrite Hthr in E by exact N. pose proof (bv_pc0 q pcq E) as Kq.
         destruct pcq; cbn [bpc_ok] in *; change (b_whead st') with (b_whead st); change (b_tail st') with (b_tail st);
           change (b_head st') with (i + rn); change (b_rtail st') with (b_rtail st);
-          change (b_gval st') with (b_gval st); change (b_slot st') with (b_slot st); try exact Kq.
-        * destruct Kq as (A & B & C0). repeat split; try assumption. intros Hr. specialize (C0 Hr). lia.
-        * destruct Kq as (A & B & C0 & D). repeat split; try assumption.
-          destruct (bv_rdisj0 q p _ _ i0 rn0 i rn N E Epc eq_refl eq_refl); lia.
-        * destruct Kq as (A & B & C0 & D & F). repeat split; try assumption.
-          destruct (bv_rdisj0 q p _ _ i0 rn0 i rn N E Epc eq_refl eq_refl); lia.
+          change (b_gval st') with (b_gval st); change (b_slot st') with (b_slot st); try exact Kq;
+          repeat match goal with H : _ /\ _ |- _ => destruct H end;
+          repeat match goal with |- _ /\ _ => split end; try assumption; try lia;
+          try (match goal with H : ?a = ?b -> _ |- ?a = ?b -> _ => let Hr := fresh in intros Hr; specialize (H Hr); lia end);
+          try (destruct (bv_rdisj0 q p _ _ _ _ i rn N E Epc eq_refl eq_refl); lia).
     - intros q. destruct (Nat.eq_dec q p) as [->|N]; [rewrite Hthp; apply bfinish_ops; apply bv_ops0 | rewrite Hthr by exact N; apply bv_ops0].
     - intros q1 q2 pc1 pc2 a k b l N E1 E2 H1 H2.
       assert (A1 : q1 <> p) by (intros Eq; rewrite Eq, Hthp in E1; apply bfinish_pc in E1; destruct E1 as (o & ? & ? & ->); destruct (entry_noint o); congruence).
@@ -396,5 +394,102 @@ Section Batch.
     - intros q x Hx. destruct (Nat.eq_dec q p) as [->|N].
       + rewrite Hthp in Hx. apply bfinish_res in Hx. destruct Hx as [->|Hx]; [exact Hro | apply (bv_res0 p x Hx)].
       + rewrite Hthr in Hx by exact N. apply (bv_res0 q x Hx).
+  Qed.
+
+  Lemma zmin_spec a b : (zmin a b = a /\ a < b) \/ (zmin a b = b /\ b <= a).
+  Proof. unfold zmin. destruct (Z.ltb_spec a b); [left|right]; split; auto. Qed.
+
+  Lemma batch_step_inv st p : BInv st -> bnowrap (fst (batch_step c st p)) -> BInv (fst (batch_step c st p)).
+  Proof.
+    intros I NW. unfold batch_step in *. destruct (t_pc (b_thr st p)) as [pc|] eqn:Epc; [|exact I].
+    pose proof (bv_pc st I p pc Epc) as K. pose proof (bv_s st I) as Hs0.
+    pose proof (bv_gt st I) as Hgt. pose proof (bv_grt st I) as Hgrt. pose proof (bv_g st I) as Hg. unfold bnowrap in Hg.
+    destruct (bv_ord st I) as (O1 & O2 & O3 & O4 & O5).
+    pose proof Hcap0 as Hcp. pose proof (cfg_cap_lt_W c Hc) as HcW. fold cap in HcW.
+    destruct pc; cbn [bpc_ok] in K; cbn [fst] in *.
+    - (* BPushLdT *) apply (binv_goto st p _ _ I Epc); try reflexivity. cbn [bpc_ok]. lia.
+    - (* BPushLdH *)
+      set (wn := zmin (Z.of_nat (length vs)) (wrap (c_cap c - wrap (wt - b_head st)))) in *.
+      assert (Hx : 0 <= wrap (c_cap c - wrap (wt - b_head st))) by apply wrap_range.
+      destruct (Z.eqb_spec wn 0) as [E0|N0]; cbn [fst] in *.
+      + apply (binv_fail st p _ _ I Epc); try reflexivity.
+        destruct one; cbn [res_ok]; [exact Logic.I|]. simpl length. split; [lia|]. intros k Hk. simpl in Hk. lia.
+      + apply (binv_goto st p _ _ I Epc); try reflexivity. cbn [bpc_ok].
+        destruct (zmin_spec (Z.of_nat (length vs)) (wrap (c_cap c - wrap (wt - b_head st)))) as [[Em Hm]|[Em Hm]]; fold wn in Em.
+        * repeat split; try lia. intros ->. rewrite (wrap_small (b_tail st - b_head st)) in Hm by lia.
+          fold cap in Hm. rewrite (wrap_small (cap - (b_tail st - b_head st))) in Hm by lia. lia.
+        * repeat split; try lia. intros ->. rewrite (wrap_small (b_tail st - b_head st)) in Em by lia.
+          fold cap in Em. rewrite (wrap_small (cap - (b_tail st - b_head st))) in Em by lia. lia.
+    - (* BPushCasT *) destruct K as (K1 & K2 & K3).
+      destruct (Z.eqb_spec (b_tail st) wt) as [Eq|Nq]; cbn [fst] in *.
+      + subst wt. specialize (K3 eq_refl). rewrite (wrap_small (b_tail st + wn)) in * by lia.
+        apply (binv_claim_tail st p one vs wn I Epc). unfold bnowrap in NW. cbn in NW. fold cap in NW. lia.
+      + apply (binv_goto st p _ _ I Epc); try reflexivity. cbn [bpc_ok]. lia.
+    - (* BPushWr *) destruct K as (-> & K2). apply binv_write; assumption.
+    - (* BPushCasW *) destruct K as (-> & K2 & K3 & K4).
+      destruct (Z.eqb_spec (b_whead st) i) as [Eq|Nq]; cbn [fst] in *; [|exact I].
+      rewrite (wrap_small (i + wn)) by lia. apply binv_publish; assumption.
+    - (* BPopLdRT *) apply (binv_goto st p _ _ I Epc); try reflexivity. cbn [bpc_ok]. lia.
+    - (* BPopLdWH *) destruct K as [Kn K].
+      set (rn := zmin n (wrap (b_whead st - rt))) in *.
+      assert (Hx : 0 <= wrap (b_whead st - rt)) by apply wrap_range.
+      destruct (Z.eqb_spec rn 0) as [E0|N0]; cbn [fst] in *.
+      + apply (binv_fail st p _ _ I Epc); try reflexivity.
+        destruct one; cbn [res_ok]; [exact Logic.I|]. simpl length. repeat split; try lia.
+      + apply (binv_goto st p _ _ I Epc); try reflexivity. cbn [bpc_ok].
+        destruct (zmin_spec n (wrap (b_whead st - rt))) as [[Em Hm]|[Em Hm]]; fold rn in Em.
+        * repeat split; try lia. intros ->. rewrite (wrap_small (b_whead st - b_rtail st)) in Hm by lia. lia.
+        * repeat split; try lia. intros ->. rewrite (wrap_small (b_whead st - b_rtail st)) in Em by lia. lia.
+    - (* BPopCasRT *) destruct K as (K0 & K1 & K2 & K3).
+      destruct (Z.eqb_spec (b_rtail st) rt) as [Eq|Nq]; cbn [fst] in *.
+      + subst rt. specialize (K3 eq_refl). rewrite (wrap_small (b_rtail st + rn)) by lia.
+        apply (binv_claim_rtail st p one n rn I Epc).
+      + apply (binv_goto st p _ _ I Epc); try reflexivity. cbn [bpc_ok]. lia.
+    - (* BPopRd *) destruct K as (-> & K2 & K3 & K4).
+      apply (binv_goto st p _ _ I Epc); try reflexivity. cbn [bpc_ok]. repeat split; try lia.
+      pose proof (ring_read_spec c Hc (b_slot st) i (Z.to_nat rn)) as R. rewrite (wrap_small i) in R by lia. rewrite R.
+      apply map_ext_in. intros j Hj. apply zseq_In in Hj. fold cap. apply (bv_data st I). lia.
+    - (* BPopCasH *) destruct K as (-> & K2 & K3 & K4 & K5).
+      destruct (Z.eqb_spec (b_head st) i) as [Eq|Nq]; cbn [fst] in *; [|exact I].
+      rewrite (wrap_small (i + rn)) by lia. apply binv_release; assumption.
+  Qed.
+
+  Definition scripts_ok (scripts : list (list op)) : Prop := forall p, Forall bop_ok (nth p scripts []).
+
+  Lemma binit_inv scripts : 0 <= s -> s + cap < W64 -> scripts_ok scripts -> BInv (batch_init s scripts).
+  Proof.
+    intros H0 HW Hok. pose proof Hcap0 as Hcp.
+    assert (Ews : wrap s = s) by (apply wrap_small; lia).
+    assert (Hnp : forall p pc, t_pc (b_thr (batch_init s scripts) p) = Some pc -> exists o, pc = batch_entry o /\ bop_ok o).
+    { intros p pc E. simpl in E. unfold thr_init in E. specialize (Hok p). destruct (nth p scripts []) as [|o r]; simpl in E; [discriminate|].
+      inversion E. exists o. split; [reflexivity|]. inversion Hok; assumption. }
+    constructor; cbn [batch_init b_head b_tail b_whead b_rtail b_gt b_grt b_slot b_gval]; rewrite ?Ews; try lia.
+    - unfold bnowrap. cbn. rewrite Ews. exact HW.
+    - intros p pc E. destruct (Hnp p pc E) as (o & -> & Ho). apply entry_bok; exact Ho.
+    - intros p. simpl. unfold thr_init. specialize (Hok p). destruct (nth p scripts []) as [|o r]; simpl; [constructor|]. inversion Hok; assumption.
+    - intros p q pc1 pc2 a k b l N E1 E2 H1. destruct (Hnp p pc1 E1) as (o & -> & _). destruct (entry_noint o). congruence.
+    - intros p q pc1 pc2 a k b l N E1 E2 H1. destruct (Hnp p pc1 E1) as (o & -> & _). destruct (entry_noint o). congruence.
+    - intros p r Hr. simpl in Hr. unfold thr_init in Hr. destruct (nth p scripts []); simpl in Hr; contradiction.
+  Qed.
+
+  (* reachable by ANY sequence of participant choices, the index-wrap guard holding all along *)
+  Inductive breach_nw (st0 : bstate) : bstate -> Prop :=
+  | bnw0 : bnowrap st0 -> breach_nw st0 st0
+  | bnwS st p : breach_nw st0 st -> bnowrap (fst (batch_step c st p)) -> breach_nw st0 (fst (batch_step c st p)).
+
+  Lemma breach_inv scripts st : 0 <= s -> s + cap < W64 -> scripts_ok scripts -> breach_nw (batch_init s scripts) st -> BInv st.
+  Proof.
+    intros H0 HW Hok R. induction R as [NW|st p R IH NW].
+    - apply binit_inv; assumption.
+    - apply batch_step_inv; assumption.
+  Qed.
+
+  Lemma batch_e3step_reach st0 st p f : breach c st0 st -> breach c st0 (fst (batch_e3step c st p f)).
+  Proof.
+    intros R. unfold batch_e3step.
+    destruct (batch_step c st p) as [st1 o] eqn:E1.
+    assert (R1 : breach c st0 st1) by (replace st1 with (fst (batch_step c st p)) by (rewrite E1; reflexivity); constructor; exact R).
+    destruct (t_pc (b_thr st1 p)) as [pc|]; [|exact R1].
+    destruct (batch_silent pc); [|exact R1]. cbn [fst]. constructor. exact R1.
   Qed.
 End Batch.
